@@ -468,11 +468,15 @@ def _check_ignore(prog, res, S, pa, fn, L, site, coll) -> None:
     # the test itself must cover every range of the collection (no filter)
     host = None
     for n in walk_body(L.body):
-        if isinstance(n, ast.Call) and isinstance(n.func, ast.Name) and n.func.id == "any" and n.args \
+        if isinstance(n, ast.Call) and isinstance(n.func, ast.Name) and n.func.id in ("any", "all", "sum", "max", "min") and n.args \
                 and isinstance(n.args[0], (ast.GeneratorExp, ast.ListComp)):
             g = n.args[0]
             if any(isinstance(c, ast.Call) and prog.dotted(c.func) in ("core.has_ignore_comment", "has_ignore_comment") for c in ast.walk(g.elt)):
                 host = g
+    if ok and host is not None:
+        agg = parent(host)
+        if not (isinstance(agg, ast.Call) and isinstance(agg.func, ast.Name) and agg.func.id == "any"):
+            ok, why = False, "the ignore-comment test is not aggregated with any(): one annotated line must be enough to refuse the whole transaction"
     if ok and host is not None:
         gen = host.generators[0]
         if len(host.generators) != 1 or gen.ifs or not (isinstance(gen.iter, ast.Name) and gen.iter.id == coll):
@@ -731,6 +735,8 @@ VARIANTS = [
     Variant("ignore-test-deleted", "FIRE", "processing",
             "            if any(core.has_ignore_comment(source, rng) for rng, _ in rewrites):\n                logger.debug(\"Ignoring transaction {transaction} due to ignore comment.\", transaction=t)\n                continue\n",
             "", "R10.6"),
+    Variant("ignore-test-all-instead-of-any", "FIRE", "processing",
+            "            if any(core.has_ignore_comment(source, rng) for rng, _ in rewrites):", "            if all(core.has_ignore_comment(source, rng) for rng, _ in rewrites):", "R10.6"),
     Variant("transactions-reverse-order", "FIRE", "processing",
             "        for t in sorted(transaction_rewrites):\n            if t.group_number != k:", "        for t in sorted(transaction_rewrites, reverse=True):\n            if t.group_number != k:", "R10.8"),
     Variant("overlap-non-strict", "FIRE", "core",
